@@ -40,7 +40,7 @@ NoTyping == [ok |-> FALSE, illegal |-> FALSE, up |-> << >>, down |-> << >>, tgt 
 TypingT(toks, enz, role, w, circ) ==
   LET n == Len(w)
       r == Search(toks, w, 0, n, circ)
-  IN IF n = 0 \/ ~r.ok THEN NoTyping
+  IN IF n = 0 \/ Len(toks) = 0 \/ ~r.ok THEN NoTyping      \* (no tokens: the class's pattern uses syntax outside the modelled language)
      ELSE IF LinCuts(CycSlice(w, r.s, r.e), enz) > 2 THEN [NoTyping EXCEPT !.illegal = TRUE]
      ELSE LET sp == Spans(toks, r.m)
               g(i) == GroupText(w, sp[i][1], sp[i][2])
